@@ -344,7 +344,13 @@ def gen_program(rnd, nfiles=None, opts=None, base=None, tries=30, charset="bk", 
             hi = rnd.randrange(len(files))
             host = files[hi]
             pos = rnd.randrange(len(host.stmts) + 1)
-            host.stmts[pos:pos] = [apm.simple(".even"), apm.include("inc8.mac"), apm.simple(".even")]
+            inc_st = apm.include("inc8.mac")
+            host.stmts[pos:pos] = [apm.simple(".even"), inc_st, apm.simple(".even")]
+            if opts.get("late_path", True) and rnd.random() < 0.25:
+                # the path spelled with a <n> chunk whose value is a constant defined anywhere in the file (maybe further down): the
+                # included code takes its room all the same
+                inc_st.spell = 'inc"<pth8q>".mac'
+                host.stmts.insert(rnd.randrange(len(host.stmts) + 1), apm.assign("pth8q", apm.num(0o70)))
             if sib:
                 # a sibling include (same nesting depth, later in link order) that refers to what the first one exports: branches,
                 # relative operands and differences across two included files
